@@ -52,4 +52,25 @@ def historiesIso (g1 g2 : Graph) : List Query → List Query → Bool
       historiesIso g1 g2 r1 r2
   | _, _ => false
 
+/-- exactly what `bisect_right` observes of a query position: for every binding of the region, in
+    order, whether the position is strictly before it -/
+def queryIso (pos1 pos2 : Pos) (l1 l2 : List Pos) : Bool :=
+  l1.length == l2.length &&
+  (List.zip l1 l2).all (fun p => Pos.lt pos1 p.1 == Pos.lt pos2 p.2)
+
+/-- the query (f, pos1) on g1 and (f, pos2) on g2 make the same comparisons (weaker than
+    `orderIsoAt`: "binding before the position" and "binding at the position" are not told apart,
+    and the bindings are not compared with each other) -/
+def queryIsoAt (g1 g2 : Graph) (f : Nat) (pos1 pos2 : Pos) : Bool :=
+  queryIso pos1 pos2 (g1.locsOf f) (g2.locsOf f)
+
+/-- two histories on the two layouts: same flows and keys in the same order, each pair of queries
+    making the same comparisons -/
+def historiesQueryIso (g1 g2 : Graph) : List Query → List Query → Bool
+  | [], [] => true
+  | q1 :: r1, q2 :: r2 =>
+    q1.flow == q2.flow && q1.key == q2.key && queryIsoAt g1 g2 q1.flow q1.pos q2.pos &&
+      historiesQueryIso g1 g2 r1 r2
+  | _, _ => false
+
 end SuppModel.Flow
